@@ -49,6 +49,61 @@ def _func_wrap(stms, base):
     return out
 
 
+def _parse_lit(text):
+    stm = [x for x in astutil.parse(f":- {text}.") if x.ast_type == ASTType.Rule][0]
+    return stm.body[0]
+
+
+def _inner_variants(stms, base):
+    """negate / doubly negate comparisons and atoms inside conditions, link a local variable to a global one"""
+    out = []
+    neg = {"<": ">=", "<=": ">", ">": "<=", ">=": "<", "=": "!=", "!=": "="}
+    for i, s in enumerate(stms):
+        if s.ast_type not in (ASTType.Rule, ASTType.Minimize):
+            continue
+        gvars = []
+        for b in s.body:
+            if b.ast_type == ASTType.Literal and b.sign == Sign.NoSign and b.atom.ast_type == ASTType.SymbolicAtom:
+                gvars += _vars(b)
+        for j, b in enumerate(s.body):
+            conds = []  # (setter, condition list)
+            if b.ast_type == ASTType.ConditionalLiteral:
+                conds.append((lambda c, b=b: b.update(condition=c), list(b.condition)))
+            elif b.ast_type == ASTType.Literal and b.atom.ast_type == ASTType.BodyAggregate:
+                for k, e in enumerate(b.atom.elements):
+                    def setter(c, b=b, k=k, e=e):
+                        els = list(b.atom.elements)
+                        els[k] = e.update(condition=c)
+                        return b.update(atom=b.atom.update(elements=els))
+                    conds.append((setter, list(e.condition)))
+            for setter, cond in conds:
+                news = []
+                for k, c in enumerate(cond):
+                    try:
+                        if c.ast_type == ASTType.Literal and c.atom.ast_type == ASTType.Comparison and len(c.atom.guards) == 1 and c.sign == Sign.NoSign:
+                            m = re.match(r"^(.*?)\s(<=|>=|!=|<|>|=)\s(.*)$", str(c.atom))
+                            if m:
+                                news.append((f"in_negcmp{j}_{k}", cond[:k] + [_parse_lit(f"not {m.group(1)} {neg[m.group(2)]} {m.group(3)}")] + cond[k + 1:]))
+                            news.append((f"in_dnegcmp{j}_{k}", cond[:k] + [_parse_lit("not not " + str(c.atom))] + cond[k + 1:]))
+                        if c.ast_type == ASTType.Literal and c.atom.ast_type == ASTType.SymbolicAtom and c.sign == Sign.NoSign:
+                            news.append((f"in_dneg{j}_{k}", cond + [_parse_lit("not not " + str(c))]))
+                            lv = [v for v in _vars(c) if v not in gvars]
+                            if lv and gvars:
+                                news.append((f"in_link{j}_{k}", cond + [_parse_lit(f"{lv[0]} = {gvars[0]}")]))
+                                news.append((f"in_linkarith{j}_{k}", cond + [_parse_lit(f"{gvars[0]} = 2*{lv[0]}")]))
+                                news.append((f"in_linkcmp{j}_{k}", cond + [_parse_lit(f"{lv[0]} <= {gvars[0]}")]))
+                    except (RuntimeError, IndexError):
+                        continue
+                for tag, c2 in news:
+                    try:
+                        nb = list(s.body)
+                        nb[j] = setter(c2)
+                        out.append((tag, "\n".join(base[:i] + [str(s.update(body=nb))] + base[i + 1:])))
+                    except Exception:  # noqa
+                        continue
+    return out
+
+
 def variants(text, max_per_program=60):
     """list of (tag, program text)"""
     try:
@@ -101,9 +156,15 @@ def variants(text, max_per_program=60):
                             if re.search(r"\b" + a.name + r"\b", others):
                                 emit(f"arith{j}_{k}", i, _rule(head, body[:j] + [f"{sym.name}({','.join(args[:k] + [a.name + '+1'] + args[k + 1:])})"] + body[j + 1:]))
                                 emit(f"mul{j}_{k}", i, _rule(head, body[:j] + [f"{sym.name}({','.join(args[:k] + ['2*' + a.name] + args[k + 1:])})"] + body[j + 1:]))
+                                emit(f"selfsum{j}_{k}", i, _rule(head, body[:j] + [f"{sym.name}({','.join(args[:k] + [a.name + '+' + a.name] + args[k + 1:])})"] + body[j + 1:]))
+                                if not a.name.startswith("_"):
+                                    # a named variable that merely starts with an underscore (not anonymous in clingo)
+                                    emit(f"uscore{j}_{k}", i, re.sub(r"\b" + a.name + r"\b", "_" + a.name, base[i]))
                             emit(f"const{j}_{k}", i, _rule(head, body[:j] + [f"{sym.name}({','.join(args[:k] + ['1'] + args[k + 1:])})"] + body[j + 1:]))
                     if len(sym.arguments) >= 2:
                         emit(f"samename{j}", i, _rule(head, body + [f"{sym.name}({str(sym.arguments[0])})"]))
+                        fresh = [str(sym.arguments[0])] + [f"F{k}__" for k in range(1, len(sym.arguments))]
+                        emit(f"samepred{j}", i, _rule(head, body[:j] + [f"{sym.name}({','.join(fresh)})"] + body[j:]))
                 if b.ast_type == ASTType.Literal and b.atom.ast_type == ASTType.BodyAggregate:
                     if b.sign == Sign.NoSign:
                         emit(f"negagg{j}", i, _rule(head, body[:j] + ["not " + body[j]] + body[j + 1:]))
@@ -145,12 +206,20 @@ def variants(text, max_per_program=60):
             for v in dict.fromkeys(mvars):
                 if v != str(s.weight):
                     emit(f"prio_{v}", i, re.sub(r"@[^,\]]+", "@" + v, base[i], count=1))
+                    emit(f"prioarith_{v}", i, re.sub(r"@[^,\]]+", "@" + v + "+1", base[i], count=1))
                     break
             if len(body) > 1:
                 emit("reverse_min", i, re.sub(r"^:~ .*?\. \[", ":~ " + "; ".join(body[::-1]) + ". [", base[i], count=1))
             emit("dup_min", i, base[i], [re.sub(r"^:~ (.*?)\. \[", lambda m: ":~ " + m.group(1) + "; vy__. [", base[i], count=1)])
+    # ---- operators inside aggregate elements and conditional literals (AST level)
+    out += _inner_variants(stms, base)
     # ---- whole-program operators
     out += _func_wrap(stms, base)
+    for name, ar in sorted(astutil.defined_sigs(stms))[:2]:
+        out.append((f"showsig_{name}", "\n".join(base + [f"#show {name}/{ar}."])))
+        if ar >= 2:
+            vs = ",".join(["X", "Y"] + ["_"] * (ar - 2))
+            out.append((f"edge_{name}", "\n".join(base + [f"#edge (X,Y) : {name}({vs})."])))
     for i, s in enumerate(stms):
         if s.ast_type == ASTType.Rule:
             head = "" if (s.head.ast_type == ASTType.Literal and s.head.atom.ast_type == ASTType.BooleanConstant and not s.head.atom.value) else str(s.head)
